@@ -141,10 +141,12 @@ def _execute(sc, probe) -> Outcome:
     tr = ThreadRun(world, pool_cfg, progs, switches=switches.items(), block_choices=sc["block_choices"], line_trace=sc["line_trace"], warmup=warm)
     tr.run()
     vio = []
-    sig = dict(conn=sc["kind"], duplicate_stream_id=bool(probe.dups))
+    # diagnosis for the signature only: did pool passes race each other (impossible while the pool lock serialises them)?
+    sig = dict(conn=sc["kind"], duplicate_stream_id=bool(probe.dups), unserialised_pool_pass=bool(tr.unserialised_passes))
     what = (f"{sc['kind']} max_connections={sc['max_connections']} keepalive={sc['max_keepalive']} threads={len(progs)} warmup={sc['warmup']} "
             f"switches={[(s[0], s[1], s[2], s[3][:3] if s[3] else None) for s in tr.sched.switch_log][:8]}"
-            + (f" [two threads were given HTTP/2 stream id(s) {probe.dups}]" if probe.dups else ""))
+            + (f" [two threads were given HTTP/2 stream id(s) {probe.dups}]" if probe.dups else "")
+            + (f" [pool assignment passes were not serialised by the pool lock: {tr.unserialised_passes[:3]}]" if tr.unserialised_passes else ""))
     for run, label in ([(base, "without pre-emption")] if base is not None else []) + [(tr, "scheduled")]:
         if not run.finished:
             vio.append(V(P, "harness-timeout", f"{what}: {label}: threads did not finish", **sig))
